@@ -242,6 +242,12 @@ func natsdrainHarness(rc *RunCtx) {
 			finished = true
 			return
 		}
+		if tp.Intn("rebuild", 5) == 4 {
+			// the application builds another server from the same builder (for a later restart, say) and does not
+			// start it: the one that is serving is a server of its own
+			rc.Fault("second-server-built-from-the-same-builder")
+			_ = bld.Build()
+		}
 		// the request stream
 		var at time.Duration
 		stopByHandler := 0
